@@ -308,6 +308,10 @@ type wireResult struct {
 	RawErr, GetErr, SkErr error
 	Got                   *classad.ClassAd
 	RawText               string
+	MaxOK                 bool // GetClassAdWithMaxSize (generous budget) succeeded and read the trailer
+	MaxErr                error
+	GotMax                *classad.ClassAd
+	RawBytesSame          bool // PutClassAdRawBytes wrote the bytes PutClassAdRaw wrote
 }
 
 func pad(k int, s string) string {
@@ -414,6 +418,31 @@ func runWire(w wire) (*wireResult, error) {
 		return err
 	})
 	res.SkipOK, res.SkErr = recv(func(rm *message.Message) error { return rm.SkipClassAdRaw(ctx) })
+	res.MaxOK, res.MaxErr = recv(func(rm *message.Message) error {
+		ad, err := rm.GetClassAdWithMaxSize(ctx, 1<<26)
+		res.GotMax = ad
+		return err
+	})
+	res.RawBytesSame = true
+	if w.Raw {
+		c2 := &memConn{}
+		m2 := message.NewMessageForStream(newStream(c2, false, w.Enc && !w.Key))
+		var bb [][]byte
+		for _, e := range res.Exprs {
+			bb = append(bb, []byte(e))
+		}
+		c3 := &memConn{}
+		m3 := message.NewMessageForStream(newStream(c3, false, w.Enc && !w.Key))
+		if err := m2.PutClassAdRawBytes(ctx, bb, w.My, w.Tg); err != nil {
+			return nil, err
+		}
+		if err := m3.PutClassAdRaw(ctx, res.Exprs, w.My, w.Tg); err != nil {
+			return nil, err
+		}
+		_ = m2.FinishMessage(ctx)
+		_ = m3.FinishMessage(ctx)
+		res.RawBytesSame = bytes.Equal(c2.wr.Bytes(), c3.wr.Bytes())
+	}
 	return res, nil
 }
 
@@ -426,6 +455,15 @@ func wireOracle(w wire, res *wireResult) (key, msg string) {
 	}
 	if !res.SkipOK {
 		return "skip-desync", fmt.Sprintf("SkipClassAdRaw does not consume the bytes GetClassAd consumes: %v", res.SkErr)
+	}
+	if !res.MaxOK {
+		return "maxsize-differs", fmt.Sprintf("GetClassAdWithMaxSize (64 MiB budget) fails or consumes other bytes than GetClassAd: %v", res.MaxErr)
+	}
+	if res.GotMax == nil || res.GotMax.StringWithPrivate() != res.Got.StringWithPrivate() {
+		return "maxsize-differs", "GetClassAdWithMaxSize reconstructs a different ad than GetClassAd"
+	}
+	if !res.RawBytesSame {
+		return "rawbytes-differs", "PutClassAdRawBytes does not write the bytes PutClassAdRaw writes"
 	}
 	optIn := w.Raw || (w.Opts&32 != 0 && w.Opts&2 == 0)
 	expected := map[string]bool{}
